@@ -149,30 +149,34 @@ def vectors(rng, model, prog, H):
             kind = "inside2"
             v[j] = c01.test_vector(rng, model)[j]
         out.append((kind, v))
-    # make compared parameters equal / one ulp apart
+    # make the two sides of *every link* of every comparison equal / one ulp apart
     rank = {p.id: j for j, p in enumerate(priors)}
     asserts = [s for s in prog if s["op"] == "assert" and "ops" in s["expr"]]
-    for s in asserts[:3]:
-        objs = [H[o["h"]] for o in s["expr"]["operands"] if isinstance(o, dict)]
-        ps = [o for o in objs if isinstance(o, Prior) and o.id in rank]
-        if len(ps) >= 2 and ps[0].id != ps[1].id:
+    rng.shuffle(asserts)
+    for s in asserts[:4]:
+        operands = s["expr"]["operands"]
+        for k in range(len(operands) - 1):
+            left, right = operands[k], operands[k + 1]
+            lo = H[left["h"]] if isinstance(left, dict) else left
+            ro = H[right["h"]] if isinstance(right, dict) else right
+            lp = isinstance(lo, Prior) and lo.id in rank
+            rp = isinstance(ro, Prior) and ro.id in rank
             v = list(base)
-            a, b = rank[ps[0].id], rank[ps[1].id]
-            mode = rng.choice(["eq", "up", "down", "swap"])
-            if mode == "eq":
-                v[b] = v[a]
-            elif mode == "up":
-                v[b] = math.nextafter(v[a], math.inf)
-            elif mode == "down":
-                v[b] = math.nextafter(v[a], -math.inf)
-            else:
-                v[a], v[b] = v[b], v[a]
-            out.append(("pair-" + mode, v))
-        elif len(ps) >= 1:
-            consts = [o for o in s["expr"]["operands"] if not isinstance(o, dict)]
-            if consts:
-                v = list(base)
-                v[rank[ps[0].id]] = rng.choice([consts[0], math.nextafter(consts[0], math.inf), math.nextafter(consts[0], -math.inf)])
+            mode = rng.choice(["eq", "eq", "up", "down", "swap"])
+            if lp and rp and lo.id != ro.id:
+                a, b = rank[lo.id], rank[ro.id]
+                if mode == "eq":
+                    v[b] = v[a]
+                elif mode == "up":
+                    v[b] = math.nextafter(v[a], math.inf)
+                elif mode == "down":
+                    v[b] = math.nextafter(v[a], -math.inf)
+                else:
+                    v[a], v[b] = v[b], v[a]
+                out.append(("pair-" + mode, v))
+            elif (lp and isinstance(ro, float)) or (rp and isinstance(lo, float)):
+                j, c = (rank[lo.id], ro) if lp else (rank[ro.id], lo)
+                v[j] = {"eq": c, "up": math.nextafter(c, math.inf), "down": math.nextafter(c, -math.inf), "swap": c}[mode]
                 out.append(("const-edge", v))
     return out
 
